@@ -74,6 +74,8 @@ fn to_prim(form: &str, target: &str, a: &str) -> String {
             "i128" => opt(x.to_i128()),
             "u64" => opt(x.to_u64()),
             "u128" => opt(x.to_u128()),
+            "f64" => match x.to_f64() { Some(g) => format!("0x{:x}", g.to_bits()), None => "None".to_string() },
+            "f32" => match x.to_f32() { Some(g) => format!("0x{:x}", g.to_bits()), None => "None".to_string() },
             _ => "UNKNOWN-TARGET".to_string(),
         }
     } else {
@@ -83,6 +85,8 @@ fn to_prim(form: &str, target: &str, a: &str) -> String {
             "i128" => opt(r.to_i128()),
             "u64" => opt(r.to_u64()),
             "u128" => opt(r.to_u128()),
+            "f64" => match r.to_f64() { Some(g) => format!("0x{:x}", g.to_bits()), None => "None".to_string() },
+            "f32" => match r.to_f32() { Some(g) => format!("0x{:x}", g.to_bits()), None => "None".to_string() },
             _ => "UNKNOWN-TARGET".to_string(),
         }
     }
@@ -246,6 +250,14 @@ fn hash_op(a: &str) -> String {
 fn from_float(ty: &str, entry: &str, bits: &str) -> String {
     use std::convert::TryFrom;
     match (ty, entry) {
+        ("f64", "roundtrip") => match BigDecimal::try_from(p_f64(bits)) {
+            Ok(d) => match d.to_f64() { Some(g) => format!("0x{:x}", g.to_bits()), None => "None".to_string() },
+            Err(_) => "Err".to_string(),
+        },
+        ("f32", "roundtrip") => match BigDecimal::try_from(p_f32(bits)) {
+            Ok(d) => match d.to_f32() { Some(g) => format!("0x{:x}", g.to_bits()), None => "None".to_string() },
+            Err(_) => "Err".to_string(),
+        },
         ("f32", "try_from") => match BigDecimal::try_from(p_f32(bits)) { Ok(d) => f_dec(&d), Err(_) => "Err".to_string() },
         ("f64", "try_from") => match BigDecimal::try_from(p_f64(bits)) { Ok(d) => f_dec(&d), Err(_) => "Err".to_string() },
         ("f32", _) => match BigDecimal::from_f32(p_f32(bits)) { Some(d) => f_dec(&d), None => "Err".to_string() },
